@@ -519,7 +519,7 @@ def uncanon(c: Any) -> Any:
         de = DataElement(e['tag'], uncanon(e['value']), {k: uncanon(v) for k, v in e['attrib']},
                          xmlns=[tuple(p) for p in e['xmlns']] or None)
         for k in e['kids']:
-            de.append(uncanon(k))
+            de._children.append(uncanon(k))     # not `.append`: a mutated child may be something else
         t = uncanon(e['tail'])
         if t is not None:
             de.tail = t
